@@ -32,7 +32,8 @@ def fault_list(call, tier):
     if errs:
         # quick tier: the first errno of the list; for unlinkat also ENOENT (the name vanished: somebody else renamed or removed
         # the message - an errno that code is tempted to treat as success)
-        for e in (errs if tier == 'thorough' else (errs[:2] if call['call'] == 'unlinkat' else errs[:1])):
+        # (and for read / write also EINTR: a failure code is tempted to retry - the retry must not lose or repeat bytes)
+        for e in (errs if tier == 'thorough' else (errs[:2] if call['call'] in ('unlinkat', 'write', 'read') else errs[:1])):
             kinds.append('errno=' + e)
     if call['call'] in iorun.SHORTABLE:
         kinds.append('short=1')
